@@ -312,6 +312,10 @@ def statics_of(call):
     return out
 
 
+def _alias_of(pfx):
+    return "" if pfx in ("", "t.") else " AS " + pfx[:-1]
+
+
 def static_values(s, atoms):
     """what SQLite computes for each static condition text on each row (data supplied to the model and to the
     oracle: the text is the caller's own SQL)"""
@@ -323,7 +327,7 @@ def static_values(s, atoms):
         conn.executemany("INSERT INTO t VALUES (%s)" % ",".join("?" * (len(s["names"]) + 1)),
                          [tuple(r) for r in s["rows"]])
         sql = "SELECT %s FROM t%s ORDER BY %sid" % (", ".join("(%s)" % a for a in atoms),
-                                                    " AS x" if s["pfx"] == "x." else "", s["pfx"])
+                                                    _alias_of(s["pfx"]), s["pfx"])
         got = [list(r) for r in conn.execute(sql)]
     finally:
         conn.close()
@@ -573,6 +577,43 @@ def _open_db(names, rows):
     return conn
 
 
+def caller_texts(s):
+    """every piece of SQL text the caller wrote himself: SELECT..FROM, GROUP BY, the ORDER BY in effect, the column
+    expressions of the conditions and keyword filters, the static conditions"""
+    out = [s["from"]]
+    if s["group"]:
+        out.append(s["group"])
+    c = s["corder"]
+    if c is not None and c[0] == "V":
+        if isinstance(c[1], str):
+            out.append(c[1])
+    else:
+        out += [col for col, _ in (eff_order(s) or [])]
+
+    def walk(c):
+        if c is None or c[0] == "B":
+            return
+        if c[0] == "R":
+            out.append(c[1])
+        elif c[0] in ("T", "P"):
+            out.append(c[1])
+        elif c[0] == "A":
+            out.append(c[2])
+        else:
+            for x in c[1]:
+                walk(x)
+            out.extend(k for k, _ in c[2])
+    for c in s["call"]["args"]:
+        walk(c)
+    out.extend(k for k, _ in s["call"]["kw"])
+    return out
+
+
+def pct_safe(s):
+    """the caller's texts are fit for a %s-style connector: every percent sign is written doubled"""
+    return all("%" not in t.replace("%%", "") for t in caller_texts(s))
+
+
 def _order_text(o):
     return ", ".join(c + (" DESC" if d else "") for c, d in o)
 
@@ -663,8 +704,10 @@ def _run_line(cmd, s, cache=None):
         if len(log) != 1:
             return "crash %d statements executed" % len(log)
         sql, params = log[0]
-        if cmd == "sql":                      # the number of placeholder marks in the text (C15.placeholders)
-            return "ok %d %s" % (sql.count("%" if s["pct"] else "?"), enc_str(sql))
+        if cmd == "sql":                      # the number of placeholder marks in the text (C15.placeholders), when
+            mark = "%" if s["pct"] else "?"   # the caller's own texts carry none
+            n = "-" if any(mark in t for t in caller_texts(s)) else str(sql.count(mark))
+            return "ok %s %s" % (n, enc_str(sql))
         return " ".join(["ok"] + [_enc_value(p) if p is None or isinstance(p, (int, str)) and not isinstance(p, bool)
                                   else "X" + type(p).__name__ for p in params])
     if res is None:
@@ -906,7 +949,7 @@ def _aligned(sql, ph, bindings, params):
     where = {}
     for f, op, v in bindings:                       # markers are unique, None (kept as None) may repeat
         where.setdefault((type(v).__name__, v), set()).add((f, op))
-    toks = sql.replace("(", " ").replace(")", " ").replace(",", " ").split()
+    toks = _mask_literals(sql).replace("(", " ").replace(")", " ").replace(",", " ").split()
     cur_f, cur_op, seen_ph, slots = None, [], False, []
     for t in toks:
         if t in fields:
@@ -923,6 +966,54 @@ def _aligned(sql, ph, bindings, params):
             return "placeholder %d stands behind %r but is bound to the value given for %r" % (
                 k + 1, slot, where.get((type(v).__name__, v)))
     return None
+
+
+def _mask_literals(sql):
+    """the statement with the inside of '...' literals and of -- comments blanked out"""
+    out, i, L = [], 0, len(sql)
+    while i < L:
+        ch = sql[i]
+        if ch == "'":
+            j = sql.find("'", i + 1)
+            while j != -1 and sql[j + 1:j + 2] == "'":
+                j = sql.find("'", j + 2)
+            j = L - 1 if j == -1 else j
+            out.append("'" + "_" * (j - i - 1) + "'")
+            i = j + 1
+        elif sql.startswith("--", i):
+            j = sql.find("\n", i)
+            j = L if j == -1 else j
+            out.append(" " * (j - i))
+            i = j
+        else:
+            out.append(ch)
+            i += 1
+    return "".join(out)
+
+
+def _count_marks(sql, pct):
+    """placeholders as the database layer counts them. `?` style (sqlite): a ? outside of '...' literals, "..."
+    identifiers and -- comments. %s style (mysql.connector formats the whole statement): every %s, %% being an
+    escaped percent sign."""
+    if pct:
+        return sql.replace("%%", "").count("%s")
+    n, i, L = 0, 0, len(sql)
+    while i < L:
+        ch = sql[i]
+        if ch in "'\"":
+            j = sql.find(ch, i + 1)
+            while j != -1 and sql[j + 1:j + 2] == ch:
+                j = sql.find(ch, j + 2)
+            i = L if j == -1 else j + 1
+            continue
+        if sql.startswith("--", i):
+            j = sql.find("\n", i)
+            i = L if j == -1 else j + 1
+            continue
+        if ch == "?":
+            n += 1
+        i += 1
+    return n
 
 
 def _mark_call(call):
@@ -962,10 +1053,15 @@ def _oracle_line(cmd, s, rep):
             return "fails: a well-formed filter call raises %s; %s" % (type(e).__name__, desc)
         sql, params = log[0]
         ph = "%s" if s["pct"] else "?"
-        fixed = s["from"] + (s["group"] or "") + "".join(c for c, _ in (eff_order(s) or []))
-        if sql.count(ph) - fixed.count(ph) != len(params):
-            return "placeholders: %d placeholder(s) for %d bound value(s) in %r; %s" % (
-                sql.count(ph) - fixed.count(ph), len(params), sql, desc)
+        nmarks = _count_marks(sql, s["pct"])
+        if nmarks != len(params):
+            return "placeholders: %d placeholder(s) for %d bound value(s) in %r; %s" % (nmarks, len(params), sql, desc)
+        for t in statics_of(s["call"]):
+            if " " + t + " " not in sql:
+                return "static-text-changed: the static condition %r does not reach the statement as written: %r" % (t, sql)
+        for t in [s["from"]] + ([s["group"]] if s["group"] else []) + [col for col, _ in (eff_order(s) or [])]:
+            if t not in sql:
+                return "caller-text-changed: %r is not in the statement %r" % (t, sql)
         if not _same_values(_call_bindings(s["call"]), params):
             return "params: bound values %r are not the caller's values; %s" % (params, desc)
         s2 = dict(s, call=_mark_call(s["call"]))
@@ -1015,7 +1111,7 @@ def oracle(case, replies):
 _INTS = [0, 1, 2, 5, -3, 10, 2 ** 63 - 1, -2 ** 63, 7]
 _TEXTS = ["", "a", "A", "ab", "aB", "a%", "a_b", "it's", "x'; DROP TABLE t;--", "%", "_", "b", '"', "?", "1", "5",
           "é", "É", "1 OR 1=1", "NULL", "0", "a b", "?, ?", ") OR (1=1", "-3", "中", "%s", "B", "ba", "a\\b", "\\",
-          "C:\\tmp\\x", "100\\%", "a\\_b", "a  b", "a\tb", "a\nb", "x   ", " a", "a ", "a \n b", "\n", "\t", "  "]
+          "C:\\tmp\\x", "100\\%", "a\\_b", "a  b", "a\tb", "a\nb", "x   ", " a", "a ", "a \n b", "\n", "\t", "  ", "why?", "why%s", "a?b", "a%sb", "100%", "100%%", "??"]
 _PATTERNS = ["a%", "%", "_", "A_", "%'%", "a\\%", "%b", "_b%", "", "%%", "%_", "5", "-_", "é", "É%", "%?%",
              "__", "a_b", "A\\_B", "%a%b%", "it's", "%;%", "1%", "%0", "_%_", "%S", "%%s", "C:\\tmp\\%", "%\\", "100\\%",
              "a\\b", "\\%", "%\\%%"]
@@ -1027,15 +1123,17 @@ _NAME_SETS = [("plain", ["a", "b", "c"])] * 5 + [
     ("underscore", ["_deleted", "_rev", "name"]), ("underscore", ["_", "__x", "_1"]), ("underscore", ["_id", "grp", "_order"]),
     ("case-digit", ["A1", "Name", "x_y"]), ("case-digit", ["ID2", "aB", "c9"]),
     ("quoted", ['"order"', '"group"', '"select"']), ("underscore", ["_as", "_order_by_", "_as_scalars2"]),
+    # characters that are placeholder marks elsewhere, inside quoted names (both styles / the ? style only)
+    ("marks", ['"ok?"', '"why??"', '"n?"']), ("marks", ['"a?b"', '"?"', '"p%%"']), ("marks-percent", ['"a%b"', '"x%s"', '"%"']),
 ]
-_PREFIXES = ["", "", "", "t.", "x."]
+_PREFIXES = ["", "", "", "", "t.", "t.", "x.", '"x?".', '"y%%".', '"z%s".']
 _BIG_SIZES = [10, 999, 1000, 1001, 2500]
 
 
 def _from_text(rng, pfx, names):
     cols = ", ".join(pfx + n for n in ["id"] + names)
-    if pfx == "x.":
-        return "SELECT %s FROM t AS x" % cols
+    if pfx not in ("", "t."):
+        return "SELECT %s FROM t%s" % (cols, _alias_of(pfx))
     r = rng.random() if rng is not None else 1.0
     if r < 0.15:
         return "SELECT * FROM t"
@@ -1074,13 +1172,13 @@ _KW_TEXTS = []
 
 def kw_texts():
     """values that spell an operation, a clause or a fixed piece of the generated SQL (every key and every clause
-    of the repo's own tables, in upper, lower and mixed case): data like any other"""
-    if not _KW_TEXTS:
-        mtd_sql, _ = _mods()
-        base = ["0", "1", "FALSE", "TRUE", "?", "%s", "NULL", "None", "AND", "OR", "WHERE", "(", ")", "(?)", "= ?", "IS", "NOT"]
-        for tab in mtd_sql.SqlFilterCondition._SQL_CLAUSES.values():
-            for k, v in tab.items():
-                base += [k, v.strip(), v]
+    of the clause tables, in upper, lower and mixed case): data like any other"""
+    if not _KW_TEXTS:          # written out here: the generator must not depend on the shape of the module under test
+        base = ["0", "1", "FALSE", "TRUE", "?", "%s", "%%", "NULL", "None", "AND", "OR", "WHERE", "(", ")", "(?)", "= ?", "IS", "NOT",
+                "PLACEHOLDER"]
+        for k in ("=", "!=", "IN", "NOT IN", "IS NULL", "IS NOT NULL", "LIKE", "NOT LIKE", ">", "<", ">=", "<="):
+            tail = "" if k in ("IN", "NOT IN", "IS NULL", "IS NOT NULL") else " ?"
+            base += [k, k + tail, " " + k + tail + (" " if "IN" in k else ""), k + tail.replace("?", "%s")]
         seen = []
         for b in base:
             for x in (b, b.lower(), b.title(), b.upper()):
@@ -1212,7 +1310,13 @@ def _g_static(rng, in_group):
     texts += ["%s = 'a  b'" % t1, "%s != 'a  b'" % t2, "%s = 'a\tb'" % t1, "%s = 'a\nb'" % t2, "%s IN ('x   ', 'ab', 'a b')" % t1,
               "%s = 'a b'" % t2, "%s  =\t1" % f1, "%s = 1 -- one\n" % f1, "-- which rows\n %s IS NOT NULL -- these\n" % t1,
               "%s = 'a  b' -- two blanks\n" % t2, "%s >\n  0\n  AND %s < 9" % (pid, pid), "%s LIKE 'a %% b'".replace("%%", "_") % t1]
+    # characters that are placeholder marks elsewhere, inside literals of the caller's text
+    texts += ["%s = 'why?'" % t1, "%s IN ('why?', 'a?b')" % t2, "%s != '?'" % t1, "%s LIKE '_?b'" % t2, "%s = '??' -- ?\n" % t1,
+              "%s = '100%%%%'" % t2, "%s = 'why?' AND %s IS NOT NULL" % (t2, f1)] * 2
+    if _CTX.get("percent_ok"):
+        texts += ["%s = 'why%%s'" % t1, "%s LIKE 'a%%'" % t2, "%s = '100%%'" % t1, "%s IN ('%%s', '%%')" % t2]
     if in_group:
+        texts += ["%s = 'why?' OR %s = 'a?b'" % (t1, t2)]
         texts += ["%s = 'x   ' OR %s = 'a\tb'" % (t1, t2), "%s = 1 -- first\n OR %s = 'a  b' -- second\n" % (f1, t2)]
         texts += ["%s = 1 OR %s IS NULL" % (f1, f2), "%s IS NULL OR %s = 2" % (f1, pid), "%s = 1 OR %s = 3" % (pid, pid),
                   "%s = 0 OR %s = %s" % (f1, f1, f2)] * 2
@@ -1285,6 +1389,8 @@ def _g_scenario(rng, tier, malformed, big=0):
     kind, names = rng.choice(_NAME_SETS)
     names = list(names)
     pfx = rng.choice(_PREFIXES)
+    # a lone % in the caller's texts: only for the ? style (a %s-style caller writes %%)
+    _CTX["percent_ok"] = kind == "marks-percent" or pfx == '"z%s".' or rng.random() < 0.3
     fields = [pfx + n for n in names]
     _CTX.update(fields=fields, intcol=fields[0], pool={}, names=names)
 
@@ -1369,7 +1475,7 @@ def _lines_of(s, rng=None):
         extra = [m for m in extra if rng.random() < 0.4]
     for m in extra:
         lines.append(enc_line("ids", dict(s, method=m)))
-    if rng is not None and rng.random() < 0.12:
+    if rng is not None and rng.random() < 0.12 and pct_safe(s):
         # the same SqlMethod object is handed connections of the other placeholder flavour in between
         other = dict(s, pct=1 - s["pct"])
         for _ in range(rng.choice([1, 2, 3])):
@@ -1494,6 +1600,36 @@ def _entry_point_scenarios():
                            "meta": {"kind": "entry-points"}}
 
 
+def _marks_scenarios():
+    """? and %% (and, for the ? style, % and %s) inside the caller's own texts - literals of static conditions,
+    quoted column names, a quoted table alias - next to conditions that bind values, for both placeholder styles"""
+    k = 0
+    for names, pfx in ((['"ok?"', '"why??"', "n"], ""), (["a", "b", "c"], '"x?".'), (['"a?b"', '"?"', '"p%%"'], "t."),
+                       (["a", "b", "c"], ""), (['"a%b"', '"x%s"', "c"], "")):
+        f = [pfx + n for n in names]
+        rows = [[1, 1, "why?", "a?b"], [2, 1, "why%s", "x"], [3, None, "why?", None], [4, 2, "?", "a?b"]]
+        statics = ["%s = 'why?'" % f[1], "%s IN ('why?', '?')" % f[1], "%s != 'a?b'" % f[2], "%s = '100%%%%' OR %s = 'why?'" % (f[2], f[1])]
+        if all("%" not in n.replace("%%", "") for n in names):
+            styles = (0, 1)
+        else:
+            styles = (0,)
+            statics += ["%s = 'why%%s'" % f[1], "%s LIKE 'why%%'" % f[1]]
+        for t in statics:
+            raw = ("O", [("R", t)], []) if " OR " in t else ("R", t)
+            for call in ({"args": [raw], "kw": []}, {"args": [raw, ("T", f[0], "=", ("S", 1))], "kw": []},
+                         {"args": [("T", f[1], "LIKE", ("S", "why%")), raw], "kw": [(f[0], ("L", [1, 2]))]},
+                         {"args": [("O", [("R", t), ("T", f[2], "=", ("S", "x"))], [(f[0], ("S", 2))])], "kw": []},
+                         {"args": [], "kw": [(f[1], ("S", "why?")), (f[0], ("S", 1))]}):
+                for pct in styles:
+                    k += 1
+                    s = mk_scenario(call, rows, names=names, pfx=pfx, pct=pct, v=(k * 41) % 1024,
+                                    dorder=[None, [(pfx + "id", False)]][k % 2])
+                    if pct:
+                        yield {"lines": [enc_line("sql", s), enc_line("params", s)], "meta": {"kind": "marks-in-caller-text"}}
+                    else:
+                        yield _mk_case(s, "marks-in-caller-text")
+
+
 def _long_list_scenarios(rng, sizes, per_size):
     for n in sizes:
         for _ in range(per_size):
@@ -1504,6 +1640,7 @@ def gen_cases(rng, tier):
     for s in _fixed_scenarios():
         yield _mk_case(s, "fixed-shapes")
     yield from _entry_point_scenarios()
+    yield from _marks_scenarios()
     for s in _static_scenarios():
         yield _mk_case(s, "static-conditions", rng)
     for i, s in enumerate(_keywordish_scenarios()):
@@ -1535,7 +1672,11 @@ def gen_cases(rng, tier):
             yield {"lines": lines, "meta": {"kind": "same-method-object"}}
         elif r < 0.93:
             s = _g_scenario(rng, tier, rng.random() < 0.2)
-            s["pct"] = 1
+            for _ in range(20):
+                if pct_safe(s):
+                    break
+                s = _g_scenario(rng, tier, False)
+            s["pct"] = 1 if pct_safe(s) else 0
             s["group"] = rng.choice([None, None, s["pfx"] + s["names"][0], ""])
             yield {"lines": [enc_line("sql", s), enc_line("params", s)], "meta": {"kind": "percent-s-flavour"}}
         else:
@@ -1563,6 +1704,7 @@ def search_cases(rng, tier):
                                        v=rng.randrange(1024)), "search-long-list")
     for s in list(_fixed_scenarios())[-400:]:
         yield _mk_case(s, "search-names")
+    yield from _marks_scenarios()
     yield from _entry_point_scenarios()
     for s in _static_scenarios():
         yield _mk_case(s, "search-static")
@@ -1718,6 +1860,11 @@ def tags(case, replies):
     yield "as_scalars:" + ("absent" if s["scal"] is None else str(s["scal"]))
     if s["group"]:
         yield "group-by"
+    texts = caller_texts(s)
+    if any("?" in t for t in texts):
+        yield "caller-text-with-?:%s-style" % ("%s" if s["pct"] else "?")
+    if any("%" in t for t in texts):
+        yield "caller-text-with-%%:%s-style" % ("%s" if s["pct"] else "?")
     if len(set(l.split()[2] for l in case["lines"])) > 1:
         yield "flavours-alternate-on-one-object"
     for line, rep in zip(case["lines"], replies):
